@@ -129,6 +129,23 @@ DEFS_B = {
          "required": ["shape", "w", "h"]}]},
     "HeadersU": {"type": "object", "properties": {"content-type": {"type": "string"}, "\u00e9t\u00e9": {"type": "string"}},
                  "additionalProperties": {"type": "string"}},
+    # map key types of every kind typify produces for propertyNames
+    "MkEnum": {"type": "object", "propertyNames": {"enum": ["cpu", "memory"]}, "additionalProperties": {"type": "integer"}},
+    "MkEnumS": {"type": "object", "propertyNames": {"type": "string", "enum": ["cpu", "memory"]},
+                "additionalProperties": {"type": "string"}},
+    "MkPat": {"type": "object", "propertyNames": {"type": "string", "pattern": "^[a-z]+$"},
+              "additionalProperties": {"type": "boolean"}},
+    "MkLen": {"type": "object", "propertyNames": {"type": "string", "maxLength": 3}, "additionalProperties": {"type": "integer"}},
+    "MkUuid": {"type": "object", "propertyNames": {"type": "string", "format": "uuid"},
+               "additionalProperties": {"type": "integer"}},
+    "MkIp": {"type": "object", "propertyNames": {"type": "string", "format": "ipv4"}, "additionalProperties": {"type": "integer"}},
+    "KeyE": {"type": "string", "enum": ["k1", "k2"]},
+    "MkRefE": {"type": "object", "propertyNames": {"$ref": "#/definitions/KeyE"}, "additionalProperties": {"type": "integer"}},
+    "KeyP": {"type": "string", "pattern": "^x"},
+    "MkRefP": {"type": "object", "propertyNames": {"$ref": "#/definitions/KeyP"},
+               "additionalProperties": {"type": "array", "items": {"type": "string"}}},
+    "MkHolder": {"type": "object", "properties": {"limits": {"$ref": "#/definitions/MkEnum"},
+                                                  "by_ref": {"$ref": "#/definitions/MkRefE"}}},
     "KeyedMap": {"type": "object", "additionalProperties": {"type": "boolean"},
                  "propertyNames": {"type": "string", "pattern": "^[a-z]+$"}},
     "Alias": {"$ref": "#/definitions/Inner"},
@@ -164,6 +181,7 @@ JUNK = [None, True, False, 0, 1, -1, 5, 7, 300, -129, 2**63, 2**64 - 1, -2**63, 
         {"kind": "a"}, {"kind": "b", "n": 1}, {"kind": "b"}, {"kind": "c"}, {"t": "u"}, {"t": "tup", "c": [1, 2]},
         {"t": "st", "c": {"z": True}}, {"t": "item", "c": 4}, {"t": "u", "c": None}, {"cc": "s"},
         {"v": 1, "next": {"v": 2}}, {"n": 1}, {"n": 1, "flag": False}, {"n": 300},
+        {"cpu": 1}, {"disk": 1}, {"cpu": 1, "disk": 2}, {"k1": 1}, {"k3": 1}, {"abc": True}, {"ABC": True}, {"abcd": 1},
         {"shape": "circle", "r": 1.5}, {"shape": "rect", "w": 1, "h": 2}, {"shape": "rect", "w": 1},
         {"pt": {"x": 1}}, {"pt": {"x": 1}, "tags": ["a"], "c": "red"}, {"inner": {"n": 1}},
         "67e55044-10b1-426f-9247-bb680e5fe0c8", "127.0.0.1", "2020-01-01T00:00:00Z", "2020-01-01"]
@@ -268,7 +286,13 @@ class ValueGen:
             return [self.valid(i, depth - 1) for i in e["ids"]]
         if k == "map":
             n = rnd.choice([0, 1, 2])
-            return {rnd.choice(["a", "b", "key", "zed"]): self.valid(e["value"], depth - 1) for _ in range(n)}
+            out = {}
+            for _ in range(n):
+                kv = self.valid(e["key"], depth - 1) if rnd.random() < 0.8 else rnd.choice(["a", "disk", "k3", "ABC", "zz"])
+                if not isinstance(kv, str):
+                    kv = rnd.choice(["a", "b", "key", "zed"])
+                out[kv] = self.valid(e["value"], depth - 1)
+            return out
         if k == "struct":
             return self.props_value(e["props"], depth)
         if k == "enum":
@@ -701,7 +725,22 @@ KINDS.update({
     "intr_nested": (R("IntrS"), [{}, {"f": 5e-324}, {"f": -0.0, "g": 1e-300}, {"i": 0.0, "s": "", "v": [], "m": {}}],
                     [{"i": 1e-17}]),
 })
-ALWAYS_FULL = ("len_", "rec_", "renflat_", "intr_")      # kinds run exhaustively in every tier
+# map-typed defaults over every kind of key type (plain string, pattern / length newtype, string ENUM, natives, $ref to an
+# enum / a newtype) with valid keys, one invalid key, mixed, empty; at property / nested / definition positions
+KINDS.update({
+    "mapkey_enum": (R("MkEnum"), [{"cpu": 1}, {"cpu": 1, "memory": 2}, {}], [{"disk": 1}, {"cpu": 1, "disk": 2}, {"CPU": 1}]),
+    "mapkey_enum_s": (R("MkEnumS"), [{"memory": "m"}, {}], [{"disk": "d"}, {"": "e"}]),
+    "mapkey_pat": (R("MkPat"), [{"abc": True}, {}], [{"ABC": True}, {"abc": True, "a1": False}]),
+    "mapkey_len": (R("MkLen"), [{"abc": 1}, {"\u00e4\u00f6\u00fc": 1}], [{"abcd": 1}]),
+    "mapkey_uuid": (R("MkUuid"), [{UUID: 1}, {}], [{"zz": 1}]),
+    "mapkey_ip": (R("MkIp"), [{"127.0.0.1": 1}], [{"999.0.0.1": 1}]),
+    "mapkey_ref_enum": (R("MkRefE"), [{"k1": 1}, {}], [{"k3": 1}, {"k1": 1, "k3": 2}]),
+    "mapkey_ref_pat": (R("MkRefP"), [{"xa": ["s"]}, {"x": []}], [{"ya": ["s"]}, {"xa": [1]}]),
+    "mapkey_plain": ({"type": "object", "additionalProperties": {"type": "integer"}}, [{"anything": 1, "": 2}, {}], [{"a": "x"}]),
+    "mapkey_nested": (R("MkHolder"), [{"limits": {"cpu": 1}}, {"limits": {}, "by_ref": {"k2": 2}}, {}],
+                      [{"limits": {"disk": 1}}, {"by_ref": {"k3": 1}}]),
+})
+ALWAYS_FULL = ("len_", "rec_", "renflat_", "intr_", "mapkey_")      # kinds run exhaustively in every tier
 EXPECT_ACCEPT = ("len_",)    # kinds whose VALID defaults must be accepted and honoured (a rejection is reported)
 
 ALL_DEFS = dict(DEFS_A)
@@ -963,6 +1002,13 @@ def run_k5(ctx, cases, name=None):
         if valid[i] is None:
             rec["viol"].append({"kind": "oracle-error"})
             continue
+        if MUT == "impl-mapkey-fastpath" and m["kind"] in ("mapkey_enum", "mapkey_enum_s", "mapkey_ref_enum") and \
+                not valid[i] and isinstance(m["default"], dict) and m["default"] and add != "ok":
+            # emulated recorded answer: keys of a non-newtype key type are not validated; default_fn then panics
+            rec["add"] = "ok"
+            rec["render"] = "render-panic"
+            rec["viol"].append({"kind": "render-panic", "msg": "The default value could not be rendered for this type (emulated)"})
+            continue
         if MUT == "impl-len-bytes" and m["kind"].startswith("len_") and isinstance(m["default"], str):
             # emulation of the seeded regression `s.chars().count()` -> `s.len()` in validate_value's newtype arm:
             # the recorded add-time answer is the one a byte-counting check would give
@@ -1178,6 +1224,7 @@ THEOREMS = [
     "C06_default_exact_structural",
     "C06_check_defaults_covers_members",
     "C06_flatten_remainder_excludes_wire_names",
+    "C06_map_keys_validated",
     "C06_has_default_exact",
     "C06_has_default_float_kept",
     "C06_has_default_tiny_integer_kept",
